@@ -45,6 +45,16 @@ type FuncAn struct {
 	callSnap    map[*ssa.Call]map[string]ssa.Value // static call -> locations available right before the call
 	callVer     map[*ssa.Call]map[string]string    // static call -> synthetic versions of locations whose content is unknown
 	prods, quos []opRec
+	rems        []remRec // x % k for constant k: x == k*q + r
+	projAtom    map[*Atom]projCoef
+	capMemo     map[ssa.Value]Lin
+}
+
+type remRec struct {
+	X Lin
+	k int64
+	r Lin
+	q *Atom // X == k*q + r
 }
 
 type opRec struct {
@@ -287,9 +297,7 @@ func (a *FuncAn) lin0(v ssa.Value) Lin {
 			case "len":
 				return a.LenOf(x.Call.Args[0])
 			case "cap":
-				at := a.valueAtom(v, true)
-				a.lemma(Add(AtomLin(at), a.LenOf(x.Call.Args[0]), -1))
-				return AtomLin(at)
+				return a.CapOf(x.Call.Args[0])
 			case "copy":
 				// n <= len(dst), n <= len(src). The lengths may be expressions of slice operations that are only
 				// known to be >= 0 after those operations succeeded, so the bounds are released only where the
@@ -515,6 +523,7 @@ func (a *FuncAn) binop(x *ssa.BinOp, bits int, uns bool) Lin {
 			a.lemma(Scale(id, -1))
 			a.lemma(Scale(r, -1).plus(k - 1))
 			a.lemma(r.plus(k - 1))
+			a.rems = append(a.rems, remRec{X: X, k: k, r: r, q: q})
 			// integer rounding: a positive multiple of k is at least k
 			a.conds = append(a.conds, condLemma{pre: []Lin{X.plus(-1), Scale(r, -1)}, post: []Lin{X.plus(-k), AtomLin(q).plus(-1)}, why: "x >= 1 and x%k == 0 imply x >= k"})
 			if X.synNonNeg() {
@@ -647,6 +656,13 @@ func (a *FuncAn) quoConst(def ssa.Instruction, X Lin, k int64, bits int, uns boo
 		// for negative X truncation goes the other way: |k*q| <= |X|
 		a.conds = append(a.conds, condLemma{pre: []Lin{Scale(X, -1)}, post: []Lin{Scale(q, -1), Add(Scale(q, k), X, -1)}, why: "quotient of non-positive"})
 	}
+	// integer rounding of an upper bound: X <= j*k - 1 gives q <= j - 1 (the rational relaxation only gives
+	// q <= j - 1/k); needed for `for i := range [16]…  { data[i/8] }` with len(data) == 2
+	if k >= 2 && k <= 64 {
+		for j := int64(1); j <= 16; j++ {
+			a.conds = append(a.conds, condLemma{pre: []Lin{Scale(X, -1).plus(j*k - 1)}, post: []Lin{Scale(q, -1).plus(j - 1)}, why: "quotient of a value below a multiple of the divisor"})
+		}
+	}
 	return at
 }
 
@@ -658,6 +674,64 @@ func (a *FuncAn) LenOf(v ssa.Value) Lin {
 	}
 	l := a.len0(v)
 	a.lenMemo[v] = l
+	return l
+}
+
+// CapOf: the capacity of a slice value. The upper bound of a slice expression on a slice is its capacity, not its
+// length (`b[:cap(b)]`, `scratch[:n]` after `cap(scratch) >= n`); for strings and arrays the two coincide.
+func (a *FuncAn) CapOf(v ssa.Value) Lin {
+	v = a.cv(v)
+	if n, ok := arrayLen(v.Type()); ok {
+		return Konst(n)
+	}
+	if _, isSlice := v.Type().Underlying().(*types.Slice); !isSlice {
+		return a.LenOf(v)
+	}
+	if a.capMemo == nil {
+		a.capMemo = map[ssa.Value]Lin{}
+	}
+	if l, ok := a.capMemo[v]; ok {
+		return l
+	}
+	var l Lin
+	done := false
+	switch x := v.(type) {
+	case *ssa.MakeSlice:
+		l, done = a.Lin(x.Cap), true
+	case *ssa.Slice:
+		lo := Konst(0)
+		if x.Low != nil {
+			lo = a.Lin(x.Low)
+		}
+		switch {
+		case x.Max != nil:
+			l, done = Add(a.Lin(x.Max), lo, -1), true
+		default:
+			if n, ok := arrayLen(x.X.Type()); ok {
+				l, done = Add(Konst(n), lo, -1), true
+			} else if _, isSl := x.X.Type().Underlying().(*types.Slice); isSl {
+				l, done = Add(a.CapOf(x.X), lo, -1), true
+			}
+		}
+	case *ssa.Const:
+		if x.Value == nil {
+			l, done = Konst(0), true
+		}
+	}
+	if !done {
+		at := a.atom("cap:"+v.Name()+fmt.Sprintf("%p", v), "cap("+a.valName(v)+")", true)
+		if ins, ok := v.(ssa.Instruction); ok {
+			a.atomDef[at] = ins.Block()
+		}
+		l = AtomLin(at)
+		ln := a.LenOf(v)
+		if ln.synNonNeg() {
+			a.lemma(Add(l, ln, -1)) // cap >= len
+		} else {
+			a.conds = append(a.conds, condLemma{pre: []Lin{ln}, post: []Lin{Add(l, ln, -1)}, why: "capacity is at least the length"})
+		}
+	}
+	a.capMemo[v] = l
 	return l
 }
 
